@@ -80,8 +80,11 @@ def _config(draw, cap=160):
     nsteps = draw(st.integers(3, 6 if slow else 12))
     against = draw(st.sampled_from([False, False, True]))
     terminal = draw(st.sampled_from([False, False, True]))
+    # the initial step longer than the whole span (the library halves it before the loop): two recorded steps, with every user
+    # call of both of them a crash point - also in calls heading against the declared span
+    long_dt = draw(st.integers(0, 5)) == 0
     return _with_dense_for_kick(dict(part="faults", method=method, dtype="float64", prob=prob, y0=draw(PR.state(prob["shape"])), t0=t0, tf=t0 + direction * L,
-                dt=L / nsteps, rtol=1e-6, atol=1e-6, dense=draw(st.booleans()) or (against and draw(st.booleans())), callbacks=draw(st.booleans()),
+                dt=(L / nsteps) if not long_dt else 2.5 * L, rtol=1e-6, atol=1e-6, dense=draw(st.booleans()) or (against and draw(st.booleans())), callbacks=draw(st.booleans()),
                 events=draw(st.sampled_from(([[], [], [0.37], [0.37, 0.62]] if not against else [[], [0.37], [0.37, 0.62], [0.62]]) if not terminal else [[0.37], [0.37, 0.62], [0.62], [0.37, 0.81]])), user_jac=draw(st.booleans()),
                 fault=draw(st.sampled_from(["rotate", "rotate", "rotate", "custom", "runtime", "zerodiv", "keyboard", "nested"])), cap=cap,
                 # a second fault, `second` user-callable calls into the resumed integrate() (at every third crash point)
@@ -230,7 +233,7 @@ def check(case):
     fam = M.family(M.get(method))
     attrs = dict(method=method, family=fam, fault=case["fault"])
     labels = ["family:" + fam, "fault:" + case["fault"], "dense:on" if case["dense"] else "dense:off", "events:{}".format(len(case["events"])),
-              "forcing_switched_on_mid_span" if case.get("kick") else "smooth_problem",
+              "forcing_switched_on_mid_span" if case.get("kick") else "smooth_problem", "initial_step_longer_than_the_span" if abs(case["dt"]) > abs(case["tf"] - case["t0"]) else "initial_step_within_the_span",
               "callbacks:on" if case["callbacks"] else "callbacks:off", "backward" if case["tf"] < case["t0"] else "forward"] + (["call_against_declared_span"] if case.get("against_span") else [])
     sig = fam
     tier_cap = case.get("cap", 160)
@@ -383,7 +386,13 @@ def check(case):
         # (a resumed call starts with the library's initial-step rule, so its grid may differ from the fault-free one:
         #  the resumed result must be as accurate as the fault-free result, not identical to it)
         allowed = 3 * err_ref + (1e-9 * (1 + float(np.max(np.abs(y_fine)))) if fam in ("explicit_fixed", "splitting") else tol_res)
-        if not d <= allowed:
+        if fam not in ("explicit_fixed", "splitting", "implicit_fixed") and err_ref > 0.5 * tol_res:
+            # the fault-free run itself misses its tolerance by far (the step controller is blind to the forcing that switches on,
+            # open finding D29): where its error comes from which steps straddle the switch, "as accurate as the fault-free run"
+            # has no meaning - the structural oracles above still apply
+            if "baseline_far_from_tolerance:resume_accuracy_not_judged" not in labels:
+                labels.append("baseline_far_from_tolerance:resume_accuracy_not_judged")
+        elif not d <= allowed:
             viols.append(V("resume_inaccurate", "{}: after resuming from {} the final state is off by {:.3e} from an accurate solution (the fault-free run: {:.3e}; allowed {:.3e}); {} vs {} samples".format(
                 method, where, d, err_ref, allowed, len(a), len(t_ref)), sig + kind, kind=kind, **attrs))
             break
